@@ -719,6 +719,61 @@ for _c in (False, True):
     CONDITIONS.append({"fn": _n, "quick": 100, "thorough": 300, "sel_only": True})
 
 
+
+# ---- a template-local variable named like the namespace key (assign / for / capture / render argument) must not steer the cache:
+# the documented namespace is the render context's *global* ---------------------------------------------------------------------
+UidLoader.SOURCES.update({
+    "shadow_assign": "{% assign uid = 'x' %}[{% include 'index' %}]",
+    "shadow_for": "{% for uid in xs %}[{% include 'index' %}]{% endfor %}",
+    "shadow_capture": "{% capture uid %}x{% endcapture %}[{% include 'index' %}]",
+    "shadow_render": "[{% render 'index', uid: 'x' %}][{% include 'index', uid: 'x' %}]",
+    "shadow_increment": "{% increment uid %}[{% include 'index' %}]",
+})
+SHADOW_PAGES = ["shadow_assign", "shadow_for", "shadow_capture", "shadow_render", "shadow_increment"]
+
+
+def _shadow_case(pi, gi, a1, choice):
+    if choice:
+        lc = CachingChoiceLoader([UidLoader()], namespace_key="uid", capacity=8)
+        lp = ChoiceLoader([UidLoader()])
+    else:
+        class CachingUid(CachingLoaderMixin, UidLoader):
+            def __init__(self, **kw):
+                super().__init__(**kw)
+        lc = CachingUid(namespace_key="uid", capacity=8)
+        lp = UidLoader()
+    res = []
+    for env in (Environment(loader=lc), Environment(loader=lp)):
+        g = nsval(gi)
+        data = {"xs": ["x"]} if g is None else {"xs": ["x"], "uid": g}
+        one = []
+        try:
+            t = env.get_template(SHADOW_PAGES[pi])
+            one.append(drive(t.render_async(**data)) if a1 else t.render(**data))
+        except LiquidError as e:
+            one.append("ERR:" + type(e).__name__)
+        for u in ("x", g, 0):
+            one.append(_uid_request(env, "index", u, a1, False))
+        res.append(one)
+    return res
+
+
+def c23_uid_shadowed_local(pi: int, gi: int, a1: bool, choice: bool) -> bool:
+    """
+    pre: 0 <= pi <= 4 and 0 <= gi <= 5
+    post: _
+    """
+    if excluded("c23_uid_shadowed_local", locals()):
+        return True
+    args = (cint(pi, 0, 4), cint(gi, 0, 5), cbool(a1), cbool(choice))
+    r = untraced(lambda: _shadow_case(*args))
+    return finish(r[0] == r[1])
+
+
+DETAIL["c23_uid_shadowed_local"] = lambda pi, gi, a1, choice: {"page": UidLoader.SOURCES[SHADOW_PAGES[pi]], "global uid": repr(nsval(gi)),
+                                                               "caching / plain (page output, then index for 'x', the global, 0)": _shadow_case(pi, gi, a1, choice)}
+CONDITIONS.append({"fn": "c23_uid_shadowed_local", "quick": 40, "thorough": 80, "sel_only": True})
+
 ASSUMPTIONS = [
     "the cache's collections.OrderedDict is replaced by vf.stubs.ModelOD (validated against the real class by the self-test)",
     "pathlib.Path in liquid.loader is replaced by FakePath (name = text after the last '/', str() = the text)",
